@@ -1,11 +1,12 @@
 """C04 - substitution pins the given value into the schema."""
+import absn
 import common
 import gen
 import pyspec
 import ssuite
 
 PROPS_FILE = "props/C04.v"
-MODEL_FILES = ["theories/Substitute.v", "theories/CaseSubst.v", "theories/Agree.v"]
+MODEL_FILES = ["theories/Substitute.v", "theories/CaseSubst.v", "theories/Agree.v", "theories/ChoiceFree.v"]
 EXTRA_TRUSTED = [
     "'carries the substituted data' is stated independently in Python (harness/pyspec.carries) for the oracle and "
     "as [pins] in Coq (proofs/SubstPins.v)",
@@ -43,6 +44,7 @@ def run(ctx):
         c.ssrc, c.schema, c.value, c.origin, c.unmodelled = ssrc, gen.build(ssrc), v, "directed", None
         cases.append(c)
     ok_cases = probes = 0
+    rejected_own = []       # S accepts v but S % v rejects v
     dist = {}
     samples = []
     for c in cases:
@@ -65,11 +67,10 @@ def run(ctx):
         if s_accepts:
             dist["v-conforms-to-S"] = dist.get("v-conforms-to-S", 0) + 1
         if s_accepts and r_accepts is False:
+            rejected_own.append(c)
             kinds = ssuite.choice_over_dicts(c.schema)
             ex = f"S={c.ssrc}, v={c.vsrc()}"
-            if nan and ctx.known_finding("F10", ex):
-                pass
-            elif "F20" in kinds and ctx.known_finding("F20", ex):
+            if "F20" in kinds and ctx.known_finding("F20", ex):
                 pass
             elif "F25" in kinds and ctx.known_finding("F25", ex):
                 pass
@@ -106,6 +107,23 @@ def run(ctx):
         rp.update(observed="substitute returned a schema with ill-typed props: " + c.unmodelled[:300],
                   expected="a schema the DSL can build", theorem_or_suite="substitute correspondence")
         ctx.violation("substitute returned an ill-formed schema object", rp)
+    # the hypothesis of subst_accepts_value_partial (wf and choice_free), decided inside Coq for the original
+    # schema of every successful case: where it holds, "S accepts v, S % v rejects v" has no excuse
+    cf_cases = [c for c in cases if c.outcome == "ok" and c.term is not None]
+    cf_terms = []
+    for c in cf_cases:
+        cf_terms.append(f"({absn.cschema(c.schema, absn.KeyTable())}, true)")
+    not_cf = set(common.eval_cases(ctx.workdir, "c04cf", cf_terms, "cfcase", "cfcase_ok",
+                                   extra_requires="Require Import D42.ChoiceFree."))
+    holds = {id(c) for j, c in enumerate(cf_cases) if j not in not_cf}
+    dist["hypothesis_choice_free_holds"] = len(holds)
+    dist["hypothesis_choice_free_fails"] = len(not_cf)
+    for c in rejected_own:
+        if id(c) in holds:
+            rp = c.replay_dict()
+            rp.update(observed="S accepts v, S % v rejects v", expected="subst_accepts_value_partial: S % v accepts v",
+                      theorem_or_suite="C04 theorem instance (subst_accepts_value_partial)")
+            ctx.violation("the substituted schema rejects the substituted value although the schema is choice-free", rp)
     modelled = [c for c in cases if c.term is not None]
     bad = common.eval_cases(ctx.workdir, "c04", [c.term for c in modelled], "subcase", "subcase_ok",
                             extra_requires="Require Import D42.FromNative D42.Substitute D42.CaseSubst.")
